@@ -297,6 +297,21 @@ func c02WorkerMain(script string) {
 				if err := os.WriteFile(p, b, 0o644); err != nil {
 					res = "err " + err.Error()
 				}
+			case "cut":
+				// tear the tail of the main file: drop its last N bytes
+				n, _ := strconv.ParseInt(f[1], 10, 64)
+				p := filepath.Join(dir, "sw.hyd")
+				if st, err := os.Stat(p); err == nil {
+					sz := st.Size() - n
+					if sz < 0 {
+						sz = 0
+					}
+					if err := os.Truncate(p, sz); err != nil {
+						res = "err " + err.Error()
+					} else {
+						res = "ok size=" + strconv.FormatInt(sz, 10)
+					}
+				}
 			case "fsize":
 				// RLIMIT_FSIZE soft limit (0 = unlimited again)
 				lim, _ := strconv.ParseUint(f[1], 10, 64)
@@ -1123,12 +1138,23 @@ func c02TraceCases(cases []c02CaseIn, extraStrace []string) ([]c02CaseOut, error
 			outs[refs[n].ci].Cmds[refs[n].ki].Res = f[2]
 		}
 	}
+	for ci := range outs {
+		for j := range outs[ci].Cmds {
+			co := &outs[ci].Cmds[j]
+			if strings.HasPrefix(co.Text, "cut ") {
+				if k := strings.Index(co.Res, "size="); k >= 0 {
+					n, _ := strconv.ParseInt(co.Res[k+5:], 10, 64)
+					co.Plant = []c02Sys{{Cmd: -1, Op: "trunc", Path: "main", Off: n, Res: "ok", Kind: "plant"}}
+				}
+			}
+		}
+	}
 	for _, s := range sys {
 		if s.Cmd < 0 || s.Cmd >= len(refs) || refs[s.Cmd].ki < 0 {
 			continue
 		}
 		co := &outs[refs[s.Cmd].ci].Cmds[refs[s.Cmd].ki]
-		if strings.HasPrefix(co.Text, "plant ") {
+		if strings.HasPrefix(co.Text, "plant ") || strings.HasPrefix(co.Text, "cut ") {
 			continue // the worker's own WriteFile; represented by the pseudo-operations
 		}
 		co.Sys = append(co.Sys, s)
@@ -1236,8 +1262,8 @@ func c02HasTempCreateOrWrite(sys []c02Sys) bool {
 
 func c02LastSync(ops []c02Sys, i int) int {
 	for m := i - 1; m >= 0; m-- {
-		if ops[m].Op == "sync" && ops[m].Res == "ok" {
-			return m + 1
+		if (ops[m].Op == "sync" && ops[m].Res == "ok") || ops[m].Cmd == -1 {
+			return m + 1 // planted files / hand-made cuts are set-up, not part of the crashable history
 		}
 	}
 	return 0
@@ -1332,15 +1358,42 @@ func c02EmitCase(w *bufio.Writer, co c02CaseOut, imgFor func(ki int, c c02CmdOut
 		fmt.Fprintf(w, "blk %d %s %d %s %s\n", b.ID, hex.EncodeToString(b.Hdr), len(b.Pay), b.Ents, b.Sizes)
 	}
 	var ops []c02Sys
+	live := map[int]bool{} // keys alive according to the commands (used when a failed compaction shows no block)
 	for ki, c := range co.Cmds {
 		f := strings.Fields(c.Text)
 		start := len(ops)
+		if f[0] == "w" {
+			for _, it := range strings.Split(f[1], ",") {
+				p := strings.Split(it, ":")
+				k, _ := strconv.Atoi(p[1])
+				if p[0] == "p" {
+					live[k] = true
+				} else {
+					delete(live, k)
+				}
+			}
+		}
 		for _, p := range c.Plant {
 			fmt.Fprintln(w, c02LogLine("plant", len(ops), p))
 			ops = append(ops, p)
 		}
 		compacted := c02HasTempCreateOrWrite(c.Sys)
 		order := c02TempOrder(co.Cl, c.Sys)
+		if compacted && order == "-" && co.Faulty {
+			// the only block of the compaction never made it to the temp: the entries are the live keys
+			var ks []int
+			for k := range live {
+				ks = append(ks, k)
+			}
+			sort.Ints(ks)
+			var parts []string
+			for _, k := range ks {
+				parts = append(parts, strconv.Itoa(k)+".0")
+			}
+			if len(parts) > 0 {
+				order = strings.Join(parts, ",")
+			}
+		}
 		if co.Faulty && len(c.Sys) > 0 {
 			var rs []string
 			for _, s := range c.Sys {
@@ -1411,7 +1464,7 @@ func c02EmitCase(w *bufio.Writer, co c02CaseOut, imgFor func(ki int, c c02CmdOut
 			} else {
 				fmt.Fprintln(w, "act load - "+st)
 			}
-		case "plant", "live", "fsize", "fsizeplus":
+		case "plant", "live", "fsize", "fsizeplus", "cut":
 		default:
 			fmt.Fprintln(w, "act "+c.Text)
 		}
@@ -1439,6 +1492,13 @@ func c02EmitCase(w *bufio.Writer, co c02CaseOut, imgFor func(ki int, c c02CmdOut
 		if want && len(ops) > start {
 			for _, p := range c02ImagePoints(ops, start, len(ops), thorough, 1<<20) {
 				fmt.Fprintf(w, "img %d %d %d\n", p[0], p[1], p[2])
+			}
+		}
+		// power loss right after an acknowledged Sync/Close: everything not fsynced is gone.  With the
+		// fsync in place this is the plain boundary image; without it the acknowledged records vanish.
+		if imgFor != nil && !co.Faulty && (f[0] == "sync" || f[0] == "close") && strings.HasPrefix(c.Res, "ok") {
+			if ls := c02LastSync(ops, len(ops)); ls < len(ops) {
+				fmt.Fprintf(w, "img %d %d 0\n", len(ops), ls)
 			}
 		}
 	}
